@@ -93,6 +93,73 @@ theorem inputs_sized (t : IdM.Table String) (decls : List (IdM.Decl String ℝ))
     (dict : String → Option ℝ) (row : String → ℝ) : Sized t (pyInputs t decls dict row) :=
   pyInputs_sized t decls dict row
 
+/-- **End to end, by name.**  Take any well-formed formula, build the id table with `prepare` from
+the formula's own declarations and the columns of the data, hand the engine the vectors Python
+builds from a (partial) name→value dictionary and a data row: the number that comes out of
+serialise → load → run is the mathematical value of the formula under the valuation *by name*
+(free parameter: dictionary value if named, else starting value; fixed parameter: declared value;
+variable: its column). -/
+theorem end_to_end (d : Dag ℝ) (hwf : WF d) (k : Nat) (hk : k < d.length) (cols : List String)
+    (t : IdM.Table String) (hp : IdM.prepare (declsOf d) [] [] cols = .ok t)
+    (hv : ∀ n ∈ d, n.kind = .var → n.name ∈ cols)
+    (dict : String → Option ℝ) (row : String → ℝ)
+    (hreg : NoZeroDenominator d (envOf t (pyInputs t (declsOf d) dict row))) :
+    run t d k (pyInputs t (declsOf d) dict row) =
+      eval semMath d (namedEnv (declsOf d) dict row) k := by
+  have hnames := prepare_names d cols t hp hv
+  rw [engine_value t d hwf k hk hnames _ (inputs_sized t _ dict row) hreg]
+  -- the table produced by prepare
+  have ht : t.free = IdM.sortDedup (((declsOf d).filter (!·.fixed)).map (·.name)) ∧
+      t.fixed = IdM.sortDedup (((declsOf d).filter (·.fixed)).map (·.name)) ∧ t.cols = cols ∧ t.all.Nodup := by
+    unfold IdM.prepare at hp
+    simp only at hp
+    split at hp
+    · rename_i hnd
+      cases hp
+      exact ⟨rfl, rfl, rfl, (IdM.nodupB_iff _).mp hnd⟩
+    · cases hp
+  obtain ⟨hfree, hfixed, hcols, hnd⟩ := ht
+  apply evalN_env_congr
+  intro j n hj
+  have hmem : n ∈ d := List.mem_of_getElem? hj
+  constructor
+  · intro hkind
+    have hdecl : (⟨n.name, n.fixed, n.value, none, none⟩ : IdM.Decl String ℝ) ∈ declsOf d := by
+      unfold declsOf
+      simp only [List.mem_map, List.mem_filter]
+      exact ⟨n, ⟨hmem, by simp [hkind]⟩, rfl⟩
+    cases hfx : n.fixed with
+    | false =>
+      have hin : n.name ∈ t.free := by
+        rw [hfree, IdM.mem_sortDedup]
+        simp only [List.mem_map, List.mem_filter]
+        exact ⟨_, ⟨hdecl, by simp [hfx]⟩, rfl⟩
+      rw [index_lookup_free t (declsOf d) dict row n.name hin]
+      obtain ⟨d', hd'⟩ := lookupLast_some_of_mem (declsOf d) false n.name ⟨_, hdecl, rfl, hfx⟩
+      simp [namedEnv, hd']
+    | true =>
+      have hin : n.name ∈ t.fixed := by
+        rw [hfixed, IdM.mem_sortDedup]
+        simp only [List.mem_map, List.mem_filter]
+        exact ⟨_, ⟨hdecl, by simp [hfx]⟩, rfl⟩
+      have hnot : n.name ∉ t.free := by
+        intro hf
+        have h1 := (List.nodup_append.mp (List.nodup_append.mp (List.nodup_append.mp
+          (List.nodup_append.mp hnd).1).1).1).2.2
+        exact h1 _ hf _ hin rfl
+      rw [index_lookup_fixed t (declsOf d) dict row n.name hin hnot]
+      have hnone : IdM.lookupLast (declsOf d) false n.name = none := by
+        apply lookupLast_none_of_not_mem
+        intro hcon
+        apply hnot
+        rw [hfree, IdM.mem_sortDedup]
+        simpa using hcon
+      simp [namedEnv, hnone]
+  · intro hkind
+    have hin : n.name ∈ t.cols := by rw [hcols]; exact hv n hmem hkind
+    rw [index_lookup_var t (declsOf d) dict row n.name hin]
+    rfl
+
 /-- **Sharing changes no value.**  If `d'` maps onto `d` by a node-preserving map (`d'` is `d`
 with some shared sub-formulas duplicated, or `d` is `d'` with equal sub-formulas merged), every
 node of `d'` has the value of its image — for each of the three semantics. -/
